@@ -114,6 +114,10 @@ func (g *gen) astValidAxioms(key, name, sort string) {
 			g.astListAxioms(tf, name)
 		}
 	}
+	if tf == "Ident.Name" && sort == arr("Int", "String") {
+		// identifiers are not qualified: the spelling of an identifier contains no dot (the name of a dot import is the dot itself)
+		g.assumeGlobal(fmt.Sprintf("(forall ((%s Int)) (! (=> (tnode %s) (or (= %s \".\") (not (str.contains %s \".\")))) :pattern (%s)))", n, n, sel, sel, sel))
+	}
 	if tf == "CallExpr.Ellipsis" {
 		// f(xs...) has at least the variadic argument
 		args := g.heapInit(fieldKey("go/ast.CallExpr", "Args"), arr("Int", "Slice"))
@@ -123,6 +127,30 @@ func (g *gen) astValidAxioms(key, name, sort string) {
 	switch tf {
 	case "SwitchStmt.Body", "TypeSwitchStmt.Body", "SelectStmt.Body":
 		g.astClauseAxiom(tf, name)
+	case "DeclStmt.Decl":
+		// a declaration statement holds a general declaration (const, type, var)
+		if t := g.resolveType(&specEnv{pkg: g.pkgTypes()}, "*ast.GenDecl"); t != nil {
+			g.assumeGlobal(fmt.Sprintf("(forall ((%s Int)) (! (=> (tnode %s) (= (i_tag %s) %d)) :pattern (%s)))", n, n, sel, g.st.tagOf(t), sel))
+		}
+	case "TypeSwitchStmt.Assign":
+		// `switch x := v.(type)` or `switch v.(type)`: an assignment, or an expression statement holding a type assertion
+		ta := g.resolveType(&specEnv{pkg: g.pkgTypes()}, "*ast.AssignStmt")
+		te := g.resolveType(&specEnv{pkg: g.pkgTypes()}, "*ast.ExprStmt")
+		tt := g.resolveType(&specEnv{pkg: g.pkgTypes()}, "*ast.TypeAssertExpr")
+		if ta != nil && te != nil && tt != nil {
+			x := g.heapInit(fieldKey("go/ast.ExprStmt", "X"), arr("Int", "Iface"))
+			g.assumeGlobal(fmt.Sprintf("(forall ((%s Int)) (! (=> (tnode %s) (or (= (i_tag %s) %d) (and (= (i_tag %s) %d) (= (i_tag (select %s (i_val %s))) %d)))) :pattern (%s)))",
+				n, n, sel, g.st.tagOf(ta), sel, g.st.tagOf(te), x, sel, g.st.tagOf(tt), sel))
+		}
+	case "Comment.Text":
+		// the text of a comment includes its // or /* marker
+		if sort == arr("Int", "String") {
+			g.assumeGlobal(fmt.Sprintf("(forall ((%s Int)) (! (=> (tnode %s) (or (str.prefixof \"//\" %s) (and (str.prefixof \"/*\" %s) (>= (str.len %s) 4)))) :pattern (%s)))", n, n, sel, sel, sel, sel))
+		}
+	case "FuncDecl.Recv":
+		// a method has exactly one receiver
+		lst := g.heapInit(fieldKey("go/ast.FieldList", "List"), arr("Int", "Slice"))
+		g.assumeGlobal(fmt.Sprintf("(forall ((%s Int)) (! (=> (and (tnode %s) (not (= %s 0))) (= (s_len (select %s %s)) 1)) :pattern (%s)))", n, n, sel, lst, sel, sel))
 	}
 }
 
